@@ -190,7 +190,8 @@ class Verdict:
                 payload = dict(f['payload'])
                 payload.update({'property': self.prop, 'key': f['key'], 'what': f['what']})
                 path = write_replay(self.prop, f['name'], payload)
-                print(f"VIOLATION property={self.prop} replay={path}  # {f['key']}: {f['what']}")
+                print(f"# {f['key']}: {f['what']}")
+                print(f"VIOLATION property={self.prop} replay={path}")
                 printed += 1
         if nviol > printed:
             print(f'# ... {nviol - printed} further violating behaviours of {self.prop} not listed')
